@@ -60,6 +60,9 @@ def scenarios(tier, rng):
     # (1 polar axis, 2 x axis, 4 y axis, 8 exact cell centre, 16 cell face, 32 cell edge); dyadic and non-dyadic boxes
     for H, place, box in [(4, 6, boxes[0]), (4, 48, boxes[0]), (3, 1, boxes[0]), (4, 8, boxes[0]), (4, 48, boxes[1]), (5, 54, boxes[2])]:
         sc.append(dict(H=H, B=rng.choice([7, 30]), mode=rng.below(2), ex=0, N=500, seed=rng.below(1000), box=box, charge=1, fam=None, place=place))
+    # target/source variant (C05: "target/source and periodic variants"): separate particle sets, targets against the sum over sources
+    for H, rel, ex in [(4, 0, 0), (5, 1, 0), (4, 2, 1), (5, 3, 0)] + ([(6, 1, 1), (3, 0, 0), (6, 3, 0)] if tier != "quick" else []):
+        sc.append(dict(H=H, B=rng.choice([7, 30, 10000000]), mode=rng.below(2), ex=ex, N=300, Ns=700, seed=rng.below(1000), box=boxes[(H + rel) % 3], charge=1, fam=None, rel=rel))
     # periodic variant (C04/C10: "numerical kernels match the explicit sum over those images"): four-step sequence with k extra
     # levels against the explicit long-double image sum over the interval the library reports
     pk = [(2, -1), (2, 0), (3, 1), (4, 0), (3, -1)] + ([(4, 2), (2, 2), (5, 1)] if tier != "quick" else [(3, 2)])
@@ -69,6 +72,8 @@ def scenarios(tier, rng):
 
 
 def cmdline(s):
+    if "rel" in s:
+        return "numt %d %d %d %d %d %d %d %r %r %r %r %d %d" % (s["H"], s["B"], s["mode"], s["ex"], s["Ns"], s["N"], s["seed"], s["box"][0], s["box"][1], s["box"][2], s["box"][3], s["charge"], s["rel"])
     if "k" in s:
         return "nump %d %d %d %d %d %d %r %r %r %r %d" % (s["H"], s["B"], s["mode"], s["k"], s["N"], s["seed"], s["box"][0], s["box"][1], s["box"][2], s["box"][3], s["charge"])
     return "num %d %d %d %d %d %d %r %r %r %r %d%s" % (s["H"], s["B"], s["mode"], s["ex"], s["N"], s["seed"], s["box"][0], s["box"][1], s["box"][2], s["box"][3], s["charge"],
